@@ -184,9 +184,8 @@ def layouts(kind, base):
     ident = ident_packet(d0, c)
     if ident is None:
         return out
-    if c in ("vorbis", "theora"):
-        out.append(("layout-shared-page+" + name0, headers_shared_page(c, ident, comment_packet(c, VENDOR, ITEMS, 7000))))
     if c == "vorbis":
+        out.append(("layout-shared-page+" + name0, headers_shared_page(c, ident, comment_packet(c, VENDOR, ITEMS, 7000))))
         # the padded comment packet fills 2 * 4080 bytes exactly: pages [4080 open][4080 + terminating 0]
         out.append(("layout-own-pages-boundary+" + name0, headers_own_pages(c, ident, comment_packet(c, VENDOR, ITEMS, 8160))))
     if c == "opus":
